@@ -238,7 +238,8 @@ func runC18(args []string) error {
 				if err := codec.Unmarshal(bts, old); err != nil {
 					sum.violate(c, "codec cannot decode into a recycled object", in, err.Error())
 				} else if !proto.Equal(m, old) {
-					sum.violate(c, "decoding into a recycled object differs from decoding into a fresh one", in, nil)
+					in2 := map[string]any{"type": name, "hex": in["hex"], "recycled_with": "Reset", "differs": diffFields(m.ProtoReflect(), old.ProtoReflect())}
+					sum.violate(c, "decoding into a recycled object differs from decoding into a fresh one", in2, nil)
 				}
 			}
 			junkPool[name] = fresh
@@ -278,6 +279,25 @@ func runC18(args []string) error {
 			sum.violate(c+i, "command encoded from a pooled object decodes differently", map[string]any{"hex": fmt.Sprintf("%x", wb)}, nil)
 		}
 		cm.ReturnToVTPool()
+		// ... and the next user of the pool is worker.proposeBatch, which builds a SEQUENCE in the pooled object: what it
+		// encodes must be what the same assignments encode on a fresh object
+		mkSeq := func(seq *regattapb.Command) []byte {
+			li := uint64(1000 + i)
+			seq.Type = regattapb.Command_SEQUENCE
+			seq.Sequence = append(seq.Sequence, &regattapb.Command{Table: []byte("t"), Type: regattapb.Command_PUT, Kv: &regattapb.KeyValue{Key: []byte{byte(i)}, Value: []byte("v")}},
+				&regattapb.Command{Table: []byte("t"), Type: regattapb.Command_DELETE, Kv: &regattapb.KeyValue{Key: []byte{byte(i)}}, RangeEnd: []byte{}})
+			seq.LeaderIndex = &li
+			b, _ := seq.MarshalVT()
+			seq.Sequence = seq.Sequence[:0]
+			seq.LeaderIndex = nil
+			return b
+		}
+		pooled := regattapb.CommandFromVTPool()
+		pb := mkSeq(pooled)
+		pooled.ReturnToVTPool()
+		if fb := mkSeq(&regattapb.Command{}); !bytes.Equal(pb, fb) {
+			sum.violate(c+i, "a command encoded from a pooled object (after the snapshot writer used and returned it) differs from the same command encoded from a fresh object", map[string]any{"pooled_hex": fmt.Sprintf("%x", pb), "fresh_hex": fmt.Sprintf("%x", fb)}, nil)
+		}
 	}
 
 	// ---- compressors under concurrent use of their pooled state ----
@@ -303,50 +323,61 @@ func runC18(args []string) error {
 				for i := 0; i < nper; i++ {
 					l := pick(rr, []int{0, 1, 2, 100, 4096, 65536, 65537, 300000})
 					p := make([]byte, l)
-					switch rr.Intn(3) {
-					case 0:
-						rr.Read(p)
-					case 1:
-						for j := range p {
-							p[j] = byte(j % 7)
-						}
-					}
-					var buf bytes.Buffer
-					w, err := comp.Compress(&buf)
-					if err == nil {
-						// write in pieces
-						for off := 0; off < len(p); {
-							k := 1 + rr.Intn(70000)
-							if off+k > len(p) {
-								k = len(p) - off
+					fill := rr.Intn(3)
+					chunk := 1 + rr.Intn(70000)
+					func() {
+						defer func() {
+							if pv := recover(); pv != nil {
+								mu.Lock()
+								sum.violate(0, "compressor "+name+" panics under concurrent use", map[string]any{"len": l, "fill": fill, "goroutines": 16, "seed": seed}, fmt.Sprint(pv))
+								mu.Unlock()
 							}
-							if _, err = w.Write(p[off : off+k]); err != nil {
-								break
+						}()
+						switch fill {
+						case 0:
+							rr.Read(p)
+						case 1:
+							for j := range p {
+								p[j] = byte(j % 7)
 							}
-							off += k
 						}
+						var buf bytes.Buffer
+						w, err := comp.Compress(&buf)
 						if err == nil {
-							err = w.Close()
+							// write in pieces
+							for off := 0; off < len(p); {
+								k := chunk
+								if off+k > len(p) {
+									k = len(p) - off
+								}
+								if _, err = w.Write(p[off : off+k]); err != nil {
+									break
+								}
+								off += k
+							}
+							if err == nil {
+								err = w.Close()
+							}
 						}
-					}
-					var out []byte
-					if err == nil {
-						var rd io.Reader
-						rd, err = comp.Decompress(&buf)
+						var out []byte
 						if err == nil {
-							out, err = io.ReadAll(rd)
+							var rd io.Reader
+							rd, err = comp.Decompress(&buf)
+							if err == nil {
+								out, err = io.ReadAll(rd)
+							}
 						}
-					}
-					mu.Lock()
-					hcz.Inc(fmt.Sprintf("%s/%d", name, l))
-					sum.Evaluations++
-					if l > 0 {
-						sum.DistinctNontrivial++
-					}
-					if err != nil || !bytes.Equal(out, p) {
-						sum.violate(0, "compressor "+name+" does not return the original bytes", map[string]any{"len": l}, fmt.Sprint(err))
-					}
-					mu.Unlock()
+						mu.Lock()
+						hcz.Inc(fmt.Sprintf("%s/%d", name, l))
+						sum.Evaluations++
+						if l > 0 {
+							sum.DistinctNontrivial++
+						}
+						if err != nil || !bytes.Equal(out, p) {
+							sum.violate(0, "compressor "+name+" does not return the original bytes under concurrent use", map[string]any{"len": l, "fill": fill, "goroutines": 16, "seed": seed}, fmt.Sprint(err))
+						}
+						mu.Unlock()
+					}()
 				}
 			}()
 		}
@@ -358,4 +389,34 @@ func runC18(args []string) error {
 	}
 	sum.CasesFiles = names
 	return sum.write(rf.Out, "c18")
+}
+
+// diffFields names the fields (as paths) in which two messages of one type differ; "(presence)" when one has the
+// field and the other does not.
+func diffFields(a, b protoreflect.Message) []string {
+	out := []string{}
+	var walk func(prefix string, a, b protoreflect.Message)
+	walk = func(prefix string, a, b protoreflect.Message) {
+		fds := a.Descriptor().Fields()
+		for i := 0; i < fds.Len(); i++ {
+			fd := fds.Get(i)
+			name := prefix + string(fd.Name())
+			switch {
+			case a.Has(fd) != b.Has(fd):
+				out = append(out, name+" (presence)")
+			case !a.Has(fd) || a.Get(fd).Equal(b.Get(fd)):
+			case fd.IsList() && fd.Message() != nil && a.Get(fd).List().Len() == b.Get(fd).List().Len():
+				la, lb := a.Get(fd).List(), b.Get(fd).List()
+				for j := 0; j < la.Len(); j++ {
+					walk(fmt.Sprintf("%s[%d].", name, j), la.Get(j).Message(), lb.Get(j).Message())
+				}
+			case !fd.IsList() && !fd.IsMap() && fd.Message() != nil:
+				walk(name+".", a.Get(fd).Message(), b.Get(fd).Message())
+			default:
+				out = append(out, name)
+			}
+		}
+	}
+	walk("", a, b)
+	return out
 }
